@@ -132,6 +132,34 @@ CLAIMED = {
         note="Shape bits are solver variables explored exhaustively; offsets inside measure() are concrete halves.",
         tech="bounded exhaustive shapes via solver-enumerated bits + z3 validity over symbolic unit multipliers",
         ref="DESIGN.md section 4 C18"),
+    "C08": dict(
+        text="Documented schemas of all nine rules (and documented non-applicability), instantiated independently of the rule "
+             "code from operand sub-trees with solver-variable coefficients/exponents in 14 surrounding contexts: on every "
+             "feasible path the rule accepts the form and the result matches the documented shape (operands by structural "
+             "signature, commutative operands in either order, numeric factors by z3 validity).",
+        note="The schema table is DESIGN.md section 4 C08; chained variants that the code special-cases are not demanded.",
+        tech="path-forking symbolic execution of the rules on schema instances + z3 validity of numeric factors (bounded operand library)",
+        ref="DESIGN.md section 4 C08"),
+    "C09": dict(
+        text="Bounded unrolling: from ~700 start expressions every sequence of k (rule-option, applicable node) choices - found "
+             "by find_nodes on long-lived rule instances, applied to clone_from_root() copies - keeps every state well formed, "
+             "printable/re-parsable, equivalent to the START for every assignment (z3) and leaves earlier states untouched; "
+             "plus an in-place query/rewrite/re-query mode for stale rule-instance state. Longer histories rest on the "
+             "inductive step C01+C02+C04+C07 over arbitrary well-formed trees.",
+        note="Payloads are concrete (states must be printed); folded float constants are read as the simplest rational they "
+             "round to (within 1e-12), which is the property's rounding allowance.",
+        tech="bounded unrolling with solver-enumerated choices + z3 equivalence with the start state",
+        ref="DESIGN.md section 4 C09"),
+    "C17": dict(
+        text="The problem generators run with every draw from `random` replaced by a solver variable or a solver-enumerated "
+             "pick: every class of draw sequences inside the bounds (a superset of every seed) yields text the real parser "
+             "accepts, positive complexity, like terms where promised, distinct variables respecting exclusions, splits that "
+             "sum to their input.",
+        note="Weakest fit of the family (said in DESIGN.md): variable pools shrunk, index draws bounded, random.random() "
+             "concretised to 6 representatives, numbers rendered from two path models; breadth-first under a per-"
+             "configuration time budget, so exhaustive only where the budget sufficed (reported).",
+        tech="symbolic execution of the generators with solver-variable random draws (bounded draws, shrunk pools)",
+        ref="DESIGN.md section 4 C17"),
 }
 
 PENDING = {}
